@@ -19,6 +19,14 @@ pub fn gen(seed: u64, tier: Tier) -> ScenarioSpec {
     let mut spec = gen::base_spec(P, "S1", seed, rec);
     spec.stream = gen::gen_stream(&mut rng, len, true);
     spec.sink = gen::gen_sink(&mut rng, true);
+    if rng.chance(1, 8) {
+        // the disk fills up: the writer must then report an error, never Ok with a shorter file.
+        // Biased to the tail of the file (a buffered writer that forgets to flush fails there).
+        spec.sink.enospc_after = Some(if rng.chance(2, 3) { (len as u64).saturating_sub(1 + rng.below(64)) } else { rng.below(len.max(1) as u64) });
+    }
+    if rng.chance(1, 10) {
+        spec.knobs.insert("prelude".into(), 2);
+    }
     spec
 }
 
@@ -27,6 +35,7 @@ pub fn run(spec: &ScenarioSpec, ctx: &mut Ctx) -> Result<(), Violation> {
     ctx.rep.sim_time_ns += m.sim_time_ns();
     shape_of_model(ctx, &m, spec);
     let edges = m.edges();
+    prelude(spec.knob("prelude"), spec.seed, &m, ctx);
     let mut ro = read_slp_noopts(&m.bytes, &spec.stream, &edges);
     note_read(ctx, &mut ro);
     let relaxed = ro.interrupted_returned;
@@ -49,6 +58,12 @@ pub fn run(spec: &ScenarioSpec, ctx: &mut Ctx) -> Result<(), Violation> {
         Res::Err(e, k) => {
             if wo.interrupted_returned && *k == Some(std::io::ErrorKind::Interrupted) {
                 ctx.skip("write surfaced Interrupted (allowed)");
+                return Ok(());
+            }
+            if wo.failed {
+                // the sink ran out of space and the writer said so: nothing more to require
+                ctx.probe("sink full: writer reported the error");
+                ctx.rep.nontrivial = true;
                 return Ok(());
             }
             return Err(Violation::new(P, "unexpected-err", "slippi::write", crate::report::short(e, 200)));
